@@ -103,7 +103,7 @@ import uuid
 __all__ = [
     'setup', 'load_sdl', 'migrate', 'migration_script', 'replay_text', 'schema_diff',
     'dump', 'dump_diff', 'user_objects', 'Spec', 'render', 'gen_spec', 'mutate',
-    'shrink_pair', 'empty_spec', 'FEATURES', 'DEFAULT_FEATURES', 'FRAGILE_FEATURES', 'MUTATIONS', 'HARD_MUTATIONS', 'features_of', 'check',
+    'shrink_pair', 'empty_spec', 'shared_sites', 'SHARED_MUTATIONS', 'OPT_IN_FEATURES', 'FEATURES', 'DEFAULT_FEATURES', 'FRAGILE_FEATURES', 'MUTATIONS', 'HARD_MUTATIONS', 'features_of', 'check',
     'EXCLUDED_FIELDS',
 ]
 
@@ -774,8 +774,9 @@ def check(spec) -> list:
                     elif k == 'prop' and p['type'] != p0['type']:
                         bad.append(f'{q}.{name}: type clash')
                     elif k == 'link' and p['target'] != p0['target'] and (
-                            defs[0][0] != q
-                            or p['target'] not in _ancestors(spec, p0['target'], types)):
+                            (defs[0][0] != q and p0['target'] not in _ancestors(spec, p['target'], types))
+                            if defs[0][0] != q or p['target'] not in _ancestors(spec, p0['target'], types)
+                            else False) and p['target'] not in _ancestors(spec, p0['target'], types):
                         bad.append(f'{q}.{name}: target clash')
                     elif defs[0][0] == q and p['required'] and not p0['required']:
                         bad.append(f'{q}.{name}: overload drops required')
@@ -1184,13 +1185,18 @@ FEATURES = (
     'obj_constraints', 'delegated', 'indexes', 'annotations', 'user_annotations',
     'defaults', 'computed_props', 'computed_links', 'backlinks', 'aliases', 'functions',
     'obj_functions', 'globals', 'modules', 'nested_modules', 'overloaded', 'abstract_ptrs',
-    'nested_alias_shapes',
+    'nested_alias_shapes', 'shared_ptrs',
 )
 #: feature groups that are NOT part of the default set because the engine's SDL
 #: loader is unreliable on them (declaration-order dependent failures, internal
 #: errors); ask for them explicitly: ``features=set(FEATURES)``
 FRAGILE_FEATURES = ('nested_alias_shapes',)
-DEFAULT_FEATURES = tuple(f for f in FEATURES if f not in FRAGILE_FEATURES)
+#: opt-in feature groups (not drawn by default so that the default random stream stays stable):
+#: 'shared_ptrs' = a same-named pointer (property or link, with / without link properties, constraints,
+#: annotations) provided by two or three UNRELATED parents and inherited by a non-overloading child, plus a
+#: grandchild.  Ask for it with ``features=set(DEFAULT_FEATURES) | {'shared_ptrs'}``.
+OPT_IN_FEATURES = ('shared_ptrs',)
+DEFAULT_FEATURES = tuple(f for f in FEATURES if f not in FRAGILE_FEATURES and f not in OPT_IN_FEATURES)
 
 # none of these is a reserved keyword (checked against edgeql-parser/src/keywords.rs)
 TYPE_NAMES = ('User', 'Post', 'Comment', 'Person', 'Movie', 'Review', 'Team', 'Project',
@@ -1929,6 +1935,9 @@ def _gen_once(rng, size, feats) -> Spec:
             a = _mk_alias(rng, spec, mod(), feats)
             if a:
                 d['aliases'].append(a)
+    if 'shared_ptrs' in feats:
+        for _ in range(rng.choice([1, 1, 2])):
+            _shared_family(rng, spec, feats, mod())
     _fix_overloaded(spec)
     _prune(spec)
     return spec
@@ -2367,6 +2376,169 @@ def m_drop_adjacent_bases(rng, spec, feats):
     i = rng.randrange(len(t['bases']) - 1)
     del t['bases'][i:i + 2]
     return 'drop_adjacent_bases'
+
+
+def _shared_family(rng, spec, feats, mod='default'):
+    """a same-named pointer provided by 2-3 unrelated parents, inherited by a non-overloading child and a grandchild"""
+    d = spec.data
+    used_types = _all_names(spec)
+
+    def fresh_type():
+        t = {'mod': mod, 'name': _fresh(rng, TYPE_NAMES, _all_names(spec)), 'abstract': False,
+             'bases': [], 'props': [], 'links': [], 'constraints': [], 'indexes': [], 'anns': []}
+        d['types'].append(t)
+        return t
+    k = rng.choice([2, 2, 3])
+    parents = [fresh_type() for _ in range(k)]
+    all_ptr = set()
+    for t in d['types']:
+        all_ptr.update(p['name'] for _, p in _own_ptrs(t))
+    kind = rng.choice(['prop', 'prop', 'link'])
+    if kind == 'prop':
+        typ = rng.choice(['str', 'int64', 'bool', 'float64'])
+        name = _fresh(rng, PROP_NAMES.get(typ, PROP_NAMES['str']), all_ptr | RESERVED_PTR_NAMES)
+        for i, t in enumerate(parents):
+            p = _new_prop(name, typ)
+            if 'constraints' in feats and rng.random() < 0.3:
+                p['constraints'].append({'kind': 'exclusive', 'args': [], 'on': None, 'delegated': False})
+            if 'annotations' in feats and rng.random() < 0.3:
+                p['anns'].append({'name': 'title', 'value': 'shared ' + str(i)})
+            p['required'] = rng.random() < 0.25
+            t['props'].append(p)
+    else:
+        tgt = fresh_type()
+        name = _fresh(rng, LINK_NAMES, all_ptr | RESERVED_PTR_NAMES)
+        for i, t in enumerate(parents):
+            l = _new_link(name, _q(tgt))
+            if 'linkprops' in feats and rng.random() < 0.5:
+                l['props'].append(_new_prop('lp_note' if rng.random() < 0.7 else f'lp_{i}', 'str'))
+            if 'annotations' in feats and rng.random() < 0.3:
+                l['anns'].append({'name': 'title', 'value': 'shared ' + str(i)})
+            l['required'] = rng.random() < 0.25
+            t['links'].append(l)
+    if rng.random() < 0.4:
+        extra = rng.choice(parents)
+        extra['props'].append(_new_prop(_fresh(rng, PROP_NAMES['int64'], all_ptr | {name} | RESERVED_PTR_NAMES), 'int64'))
+    child = fresh_type()
+    child['bases'] = [_q(t) for t in rng.sample(parents, len(parents))]
+    grand = fresh_type()
+    grand['bases'] = [_q(child)]
+    return name
+
+
+def shared_sites(spec) -> list:
+    """[(child qual, pointer name, [owner quals])]: pointers that a type inherits, without overloading them, from
+    two or more of its ancestors none of which is an ancestor of another"""
+    types = _index(spec, 'types')
+    out = []
+    for q, t in types.items():
+        if len(t['bases']) < 2:
+            continue
+        own = {p['name'] for _, p in _own_ptrs(t)}
+        for name, defs in _visible(spec, q, types).items():
+            owners = [o for o, _, _ in defs if o != q]
+            if name in own or len(owners) < 2:
+                continue
+            if any(o1 != o2 and o1 in _ancestors(spec, o2, types) for o1 in owners for o2 in owners):
+                continue
+            out.append((q, name, owners))
+    return out
+
+
+def _own_entry(t, name):
+    for kind, p in _own_ptrs(t):
+        if p['name'] == name:
+            return kind, p
+    return None, None
+
+
+def _remove_own(t, name):
+    t['props'] = [p for p in t['props'] if p['name'] != name]
+    t['links'] = [p for p in t['links'] if p['name'] != name]
+
+
+def m_shared_drop_one(rng, spec, feats):
+    """drop the shared pointer from ONE of the providing parents only"""
+    c = shared_sites(spec)
+    if not c:
+        return None
+    q, name, owners = rng.choice(c)
+    _remove_own(_index(spec, 'types')[rng.choice(owners)], name)
+    return 'shared_drop_from_one_parent'
+
+
+def m_shared_alter_one(rng, spec, feats):
+    """change the shared pointer in ONE parent only: toggle required, or (link) retarget to a subtype"""
+    c = shared_sites(spec)
+    if not c:
+        return None
+    q, name, owners = rng.choice(c)
+    types = _index(spec, 'types')
+    t = types[rng.choice(owners)]
+    kind, p = _own_entry(t, name)
+    if p is None or p.get('computed'):
+        return None
+    if kind == 'link' and rng.random() < 0.5:
+        subs = [d for d in _descendants(spec, p['target'], types)]
+        if not subs:
+            st = {'mod': types[p['target']]['mod'], 'name': _fresh(rng, TYPE_NAMES, _all_names(spec)), 'abstract': False,
+                  'bases': [p['target']], 'props': [], 'links': [], 'constraints': [], 'indexes': [], 'anns': []}
+            spec.data['types'].append(st)
+            subs = [_q(st)]
+        p['target'] = rng.choice(subs)
+        return 'shared_retarget_subtype_in_one_parent'
+    p['required'] = not p['required']
+    if p['required']:
+        p['default'] = None
+    return 'shared_required_in_one_parent:' + ('on' if p['required'] else 'off')
+
+
+def m_shared_add_second(rng, spec, feats):
+    """give a second parent of an existing child a pointer with the name of one that the child inherits from
+    another parent"""
+    types = _index(spec, 'types')
+    c = []
+    for q, t in types.items():
+        if len(t['bases']) < 2:
+            continue
+        own = {p['name'] for _, p in _own_ptrs(t)}
+        for b in t['bases']:
+            for name, defs in _visible(spec, b, types).items():
+                if name in own or name in RESERVED_PTR_NAMES or defs[0][2].get('computed'):
+                    continue
+                for b2 in t['bases']:
+                    if b2 != b and name not in _visible(spec, b2, types) and not any(
+                            name in {p['name'] for _, p in _own_ptrs(types[dd])} for dd in _descendants(spec, b2, types)):
+                        c.append((b2, defs[0][1], defs[0][2]))
+    if not c:
+        return None
+    b2, kind, p = rng.choice(c)
+    cp = copy.deepcopy(p)
+    cp['overloaded'] = False
+    cp['constraints'], cp['anns'], cp['default'], cp['extending'] = [], [], None, None
+    if kind == 'link':
+        cp['props'] = []
+    types[b2]['props' if kind == 'prop' else 'links'].append(cp)
+    return 'shared_add_to_second_parent'
+
+
+def m_shared_remove_parent(rng, spec, feats):
+    """remove one of the providing parents from the child's bases"""
+    c = shared_sites(spec)
+    if not c:
+        return None
+    q, name, owners = rng.choice(c)
+    types = _index(spec, 'types')
+    t = types[q]
+    direct = [b for b in t['bases'] if b in owners or any(o in _ancestors(spec, b, types) for o in owners)]
+    if not direct:
+        return None
+    t['bases'].remove(rng.choice(direct))
+    return 'shared_remove_parent_base'
+
+
+SHARED_MUTATIONS = ('shared_drop_from_one_parent', 'shared_alter_in_one_parent', 'shared_add_to_second_parent',
+                    'shared_remove_parent_base')
 
 
 def m_toggle_abstract(rng, spec, feats):
@@ -3098,6 +3270,10 @@ _MUT_TABLE = (
     # weight 0: drawn only when requested through `kinds=` (keeps the default random stream of other packages unchanged)
     ('rebase_multi', m_rebase_multi, 0, False),
     ('drop_adjacent_bases', m_drop_adjacent_bases, 0, False),
+    ('shared_drop_from_one_parent', m_shared_drop_one, 0, False),
+    ('shared_alter_in_one_parent', m_shared_alter_one, 0, False),
+    ('shared_add_to_second_parent', m_shared_add_second, 0, False),
+    ('shared_remove_parent_base', m_shared_remove_parent, 0, False),
     ('toggle_abstract', m_toggle_abstract, 2, False),
     ('retype_prop', m_retype_prop, 2, False),
     ('retype_prop_hard', m_retype_prop_hard, 1, True),
